@@ -96,43 +96,72 @@ func classifyPanic(r callResult) string {
 	return ""
 }
 
-// expMagnitude finds the largest decimal/binary exponent ("1e1000000", "0x1p9999999")
-// that is followed by a unit suffix anywhere in s — the class of N3.  ok is false if
-// there is none.
-func expMagnitude(s string) (mag uint64, ok bool) {
-	for i := 0; i < len(s); i++ {
-		if c := s[i]; c != 'e' && c != 'E' && c != 'p' && c != 'P' {
-			continue
+// currencyAmplifier reports whether types.ParseCurrency(s) would hand an exponent of
+// magnitude >= 1000 to big.Rat.SetString — the class of N3.  It restates how
+// ParseCurrency splits number and unit and what Rat.SetString accepts as a float:
+// [sign] mantissa (decimal / 0b / 0o digits with '.', '_'; or 0x hex digits) followed by
+// e|E|p|P (hex mantissa: p|P only) [sign] digits.  A unit (anything but "" and "H")
+// must follow, otherwise ParseCurrency never builds a Rat.
+func currencyAmplifier(s string) bool {
+	i := strings.LastIndexAny(s, "0123456789.") + 1
+	if i == 0 {
+		return false
+	}
+	n, unit := s[:i], strings.TrimSpace(s[i:])
+	if unit == "" || unit == "H" {
+		return false
+	}
+	if n[0] == '+' || n[0] == '-' {
+		n = n[1:]
+	}
+	hexm := len(n) > 1 && n[0] == '0' && (n[1] == 'x' || n[1] == 'X')
+	k := len(n) - 1
+	for k >= 0 && (n[k] >= '0' && n[k] <= '9' || n[k] == '_') {
+		k--
+	}
+	digits := n[k+1:]
+	if k >= 0 && (n[k] == '+' || n[k] == '-') {
+		k--
+	}
+	if k < 1 || digits == "" {
+		return false
+	}
+	switch n[k] {
+	case 'p', 'P':
+	case 'e', 'E':
+		if hexm {
+			return false
 		}
-		j := i + 1
-		if j < len(s) && (s[j] == '+' || s[j] == '-') {
-			j++
-		}
-		k := j
-		for k < len(s) && (s[k] >= '0' && s[k] <= '9' || s[k] == '_') {
-			k++
-		}
-		if k == j {
-			continue
-		}
-		v, err := strconv.ParseUint(strings.ReplaceAll(s[j:k], "_", ""), 10, 64)
-		if err != nil {
-			v = ^uint64(0)
-		}
-		if v >= mag {
-			mag, ok = v, true
+	default:
+		return false
+	}
+	mant := n[:k]
+	if len(mant) > 1 && mant[0] == '0' && strings.ContainsRune("xXbBoO", rune(mant[1])) {
+		mant = mant[2:]
+	}
+	for _, c := range []byte(mant) {
+		if !(c >= '0' && c <= '9' || c == '.' || c == '_' || hexm && isHex(c)) {
+			return false
 		}
 	}
-	return
+	mag, err := strconv.ParseUint(strings.ReplaceAll(digits, "_", ""), 10, 64)
+	return err != nil || mag >= 1000
 }
 
-// preClassText: N3 is an amplification (a 12-byte string costs tens of megabytes
-// and seconds of CPU, a few hundred of them in one JSON document would stall a
-// worker), so its class is decided before execution: the text contains an
-// exponent of magnitude >= 1000.
+// preClassText: N3 is an amplification (an 11-byte string costs gigabytes of
+// cumulative allocation and seconds of CPU; a few hundred of them in one JSON document
+// would stall a worker), so its class is decided before execution: the text, or any
+// JSON string inside it, is a currency amplifier.
 func preClassText(in []byte) string {
-	if mag, ok := expMagnitude(string(in)); ok && mag >= 1000 {
+	if currencyAmplifier(string(in)) {
 		return keyN3
+	}
+	if bytes.IndexByte(in, '"') >= 0 {
+		for _, t := range jsonTokens(in) {
+			if t.kind == 's' && t.hi-t.lo >= 2 && currencyAmplifier(string(in[t.lo+1:t.hi-1])) {
+				return keyN3
+			}
+		}
 	}
 	return ""
 }
@@ -222,4 +251,3 @@ func TestKnown(t *testing.T) {
 	})
 }
 
-var _ = bytes.Equal
